@@ -685,6 +685,9 @@ func (vc *VC) doReturn(st *State, f *Frame, res []Value, pos token.Pos) []*State
 	}
 	// pop an inlined frame
 	st.frames = st.frames[:len(st.frames)-1]
+	if f.onReturn != nil {
+		res = f.onReturn(vc, st, res)
+	}
 	caller := st.top()
 	if f.retTo != nil {
 		switch len(res) {
@@ -1019,6 +1022,7 @@ func (vc *VC) convert(st *State, f *Frame, x *ssa.Convert) Value {
 		n, h := vc.arrHeap(st, sortInt)
 		vc.setHeap(st, n, Store(h, r, App(T.ArrayOf(sortInt, sortInt), "str2arr", s)))
 		ln := App(sortInt, "strlen", s)
+		st.strConvs = append(st.strConvs[:len(st.strConvs):len(st.strConvs)], strConv{ref: r, str: s})
 		return mkSlice(r, IntLit(0), ln, ln)
 	case fs.Kind == KSlice && ts.Kind == KStr: // []byte -> string
 		s := vc.term(st, v, "convert")
@@ -1340,6 +1344,14 @@ func (vc *VC) havocLoop(st *State, f *Frame, li *loopInfo) {
 					st.heaps[hn] = nh
 				}
 			}
+		case "kv":
+			if mapSeen["kv"] {
+				continue
+			}
+			mapSeen["kv"] = true
+			for _, n := range kvHeapNames(st) {
+				st.heaps[n] = vc.fresh(n, st.heaps[n].Sort)
+			}
 		case "ghost":
 			if mapSeen["g:"+m.heap] {
 				continue
@@ -1543,6 +1555,8 @@ func (vc *VC) addrTarget(addr ssa.Value, li *loopInfo) modTarget {
 		} else {
 			suffix = "-new" // a fresh object per iteration / per call
 		}
+	} else if fv, isFree := root.(*ssa.FreeVar); isFree && li != nil && addr == root {
+		ref = fv // the cell of a captured variable: one known object
 	}
 	if arr, isArr := pt.Elem().Underlying().(*types.Array); isArr {
 		es := T.SortOf(arr.Elem())
@@ -1819,6 +1833,30 @@ func (vc *VC) localByName(env *Env, name string) (SV, bool) {
 		return SV{vc.load(env.st, vc.asPtr(v, pt)), pt}, true
 	}
 	return SV{vc.term(env.st, v, "spec"), cand.Type()}, true
+}
+
+// cellBacked: the source variable lives in a memory cell (captured by a closure, address taken, named result):
+// its current value is what the cell holds, not the value some assignment stored there earlier.
+func (e *Engine) cellBacked(fn *ssa.Function, name string) bool {
+	key := fn.String() + "\x00" + name
+	if v, ok := e.cellVars[key]; ok {
+		return v
+	}
+	r := false
+	for _, fv := range fn.FreeVars {
+		if fv.Name() == name {
+			r = true
+		}
+	}
+	for _, b := range fn.Blocks {
+		for _, ins := range b.Instrs {
+			if a, ok := ins.(*ssa.Alloc); ok && a.Comment == name {
+				r = true
+			}
+		}
+	}
+	e.cellVars[key] = r
+	return r
 }
 
 // boundValue: the SSA value most recently bound to the source variable called name. When several
